@@ -13,7 +13,7 @@ from __future__ import annotations
 import ast
 
 from ..core import UNKNOWN, AnalysisError, FuncInfo, body_no_doc, call_name, is_self_attr, norm, walk_no_nested
-from ..paths import cfg_of, node_of
+from ..paths import cfg_of, node_of, structural_guards
 from ..tomrun import run_tom
 
 EXPLANATION = (
@@ -479,6 +479,48 @@ def r02i(ctx):
         raise AnalysisError(f"R02i: only {n} keyed use(s) of a wrapper index found")
 
 
+def r02j(ctx):
+    """clear() resets every map the object has.
+
+    CachedElement.clear empties the element and must leave no position map describing the children that are gone.  Table, Row and Column
+    share the class and differ in which maps they own (`_tmap`, `_cmap`, `_rmap` — a Row has all three names), so each reset asks only
+    "does this object have that map?".  Chaining the resets (`if has _tmap … elif has _rmap …`) lets the first match win: a Row takes the
+    table's branch, keeps its cell map, and every read of the emptied row walks positions whose cells no longer exist.  Rule: in
+    CachedElement.clear each of the three maps is assigned an empty list under no condition other than `hasattr(self, <that map>)`.
+    """
+    repo = ctx.repo
+    ctx.rule("R02j", "CachedElement.clear resets each position map on its own (no reset is conditional on another map)", floor=3)
+    f = repo.func("CachedElement.clear")
+    n = 0
+    for m_ in ("_tmap", "_cmap", "_rmap"):
+        sets = [a for a in walk_no_nested(f.node) if isinstance(a, (ast.Assign, ast.AnnAssign)) and any(
+            isinstance(t, ast.Attribute) and t.attr == m_ and isinstance(t.value, ast.Name) and t.value.id == "self" for t in (a.targets if isinstance(a, ast.Assign) else [a.target]))]
+        n += 1
+        why = None
+        if not sets:
+            why = "is never reset"
+        else:
+            best = None
+            for a in sets:
+                foreign = [(t, pol) for t, pol in structural_guards(a, stop=f.node)
+                           if not (pol and isinstance(t, ast.Call) and call_name(t) == "hasattr" and len(t.args) == 2 and isinstance(t.args[1], ast.Constant) and t.args[1].value == m_)]
+                if not foreign:
+                    best = None
+                    break
+                best = foreign[0]
+            else:
+                pass
+            if best is not None:
+                why = f"is reset only when `{norm(best[0], 30)}` is {'true' if best[1] else 'false'}"
+        ctx.instance("R02j", f"{f.file}:{f.ident}", f"{m_} reset on its own", ok=why is None, nontrivial=True, line=f.node.lineno)
+        if why:
+            ctx.report("R02j", f, sets[0] if sets else f.node, f"{m_}: {why}",
+                       f"CachedElement.clear: the map `{m_}` {why}: an object that owns several maps (a Row has `_tmap`, `_cmap` and `_rmap`) keeps this one after its children are gone — "
+                       f"reads of the emptied row then walk positions whose cells do not exist")
+    if n < 3:
+        raise AnalysisError("R02j: maps not found")
+
+
 def run(ctx):
     tom = run_tom(ctx.repo)
     r02ab(ctx, tom)
@@ -489,6 +531,7 @@ def run(ctx):
     r02g(ctx)
     r02h(ctx)
     r02i(ctx)
+    r02j(ctx)
     # attaching the caller's own row or cell (instead of a copy) moves a node that already sits in a table while the position map counts a new item (shared with C10)
     from .c10 import r10h
     r10h(ctx)
@@ -500,6 +543,8 @@ _T = "src/odfdo/table.py"
 _R = "src/odfdo/row.py"
 _EC = "src/odfdo/element_cached.py"
 SEEDS = [
+    Seed("CachedElement.clear chains the map resets", "fault", _EC,
+         "        if hasattr(self, \"_cmap\"):\n            self._cmap: list[int] = []\n        if hasattr(self, \"_rmap\"):", "        if hasattr(self, \"_cmap\"):\n            self._cmap: list[int] = []\n        elif hasattr(self, \"_rmap\"):", "R02j"),
     Seed("the single-cell reader files its wrapper under the position it was asked for", "fault", _R,
          "        idx = find_odf_idx(self._rmap, x)\n        cell: Cell\n        if idx is not None:\n            if idx in self._indexes[\"_rmap\"]:\n                cell = self._indexes[\"_rmap\"][idx]\n            else:\n                cell = self._get_element_idx2(_xpath_cell_idx, idx)  # type: ignore\n                self._indexes[\"_rmap\"][idx] = cell\n            return cell",
          "        cache = self._indexes[\"_rmap\"]\n        cell: Cell\n        if x in cache:\n            return cache[x]\n        idx = find_odf_idx(self._rmap, x)\n        if idx is not None:\n            cell = self._get_element_idx2(_xpath_cell_idx, idx)  # type: ignore\n            cache[x] = cell\n            return cell", "R02i"),
